@@ -683,6 +683,58 @@ func (fr *Frame) applyContract(ct *Contract, fn *ssa.Function, name string, args
 	for _, en := range ct.Ensures {
 		t := c.safeEvalBool(pe, en)
 		c.assumeG(g, t)
+		// clauses stated for declared skolem constants hold for every value of those constants (the callee proved them
+		// for arbitrary ones: no precondition may mention them): assume the universally quantified version as well
+		sk := ct.Skolems
+		if len(sk) > 0 {
+			okGen := true
+			for _, r := range ct.Requires {
+				re := *e
+				re.skolems = map[string]*Term{}
+				re.inQuant = true
+				for _, s := range sk {
+					re.skolems[s] = mk(SInt, "q!sk."+sanitize(s))
+				}
+				if strings.Contains(c.safeEvalBool(&re, r).S, "q!sk.") {
+					okGen = false
+				}
+			}
+			if !okGen {
+				c.specErrors = append(c.specErrors, fmt.Sprintf("%s:%d: skolem constant constrained by a precondition: clause not generalised", en.File, en.Line))
+			} else {
+				qe := *pe
+				qe.skolems = map[string]*Term{}
+				qe.inQuant = true
+				var binds []string
+				for _, s := range sk {
+					v := "q!sk." + sanitize(s)
+					qe.skolems[s] = mk(SInt, v)
+					binds = append(binds, "("+v+" Int)")
+				}
+				body := c.safeEvalBool(&qe, en)
+				var usedBinds []string
+				for i, s := range sk {
+					if strings.Contains(body.S, "q!sk."+sanitize(s)) {
+						usedBinds = append(usedBinds, binds[i])
+					}
+				}
+				binds = usedBinds
+				var pats []string
+				seen := map[string]bool{}
+				for _, args := range findApps(body.S, "sidx") {
+					if len(args) == 2 && strings.HasPrefix(args[1], "q!sk.") && !strings.Contains(args[0], "q!") && !seen[args[0]+args[1]] {
+						seen[args[0]+args[1]] = true
+						pats = append(pats, fmt.Sprintf(":pattern ((sidx %s %s))", args[0], args[1]))
+					}
+				}
+				if len(binds) == 1 && len(pats) > 0 && len(pats) <= 4 {
+					c.assumeG(g, mk(SBool, fmt.Sprintf("(forall (%s) (! %s %s))", strings.Join(binds, " "), body.S, strings.Join(pats, " "))))
+				}
+				if len(binds) > 0 { // (no binder: the clause does not mention a skolem constant)
+					c.assumeG(g, mk(SBool, fmt.Sprintf("(forall (%s) %s)", strings.Join(binds, " "), body.S)))
+				}
+			}
+		}
 		if en.Tags["assumed"] {
 			c.trustedUsed["assumed postcondition of "+shortPkg(ct.Pkg)+"."+ct.FuncName+": "+en.Src] = true
 		}
@@ -914,6 +966,12 @@ func (fr *Frame) builtin(b *ssa.Builtin, cc *ssa.CallCommon, args []Val, st *Sta
 		was := tSelect(dom, k)
 		cnt := tSelect(c.heapGet(st, cn), m)
 		// delete on a nil map is a no-op
+		if _, own := c.allocOf[m.S]; own {
+			// a map made by this function: not nil, and the stores are tracked as writes to an own object (framed loop havoc)
+			c.heapSet(st, cn, c.sto(c.heapGet(st, cn), m, tIte(was, tSub(cnt, intLit(1)), cnt)))
+			c.heapSet(st, dn, c.sto(c.heapGet(st, dn), m, tStore(dom, k, tFalse)))
+			return Val{}, nil
+		}
 		notNil := tNot(tEq(m, intLit(0)))
 		c.heapSet(st, cn, tIte(notNil, tStore(c.heapGet(st, cn), m, tIte(was, tSub(cnt, intLit(1)), cnt)), c.heapGet(st, cn)))
 		c.heapSet(st, dn, tIte(notNil, tStore(c.heapGet(st, dn), m, tStore(dom, k, tFalse)), c.heapGet(st, dn)))
